@@ -8,7 +8,8 @@ from plugingen import IMPORTS, NODES, pod_key, cwdump, cnodes, conf_trees, conf_
 
 DEPS = ["Strs", "Nets", "Pool", "NetsP", "PoolP", "Ipam", "IpamP", "Keys", "KeysP", "Plugin", "CorrBase", "Ipamc", "Pluginc",
         "PluginInv", "PluginInvL", "PluginKeyFacts", "PluginIpamFacts", "PluginEnvP", "PluginUnbindP", "PluginBindP", "PluginP",
-        "PluginPool", "PluginC10Spec", "PluginC10P", "PluginWitness", "PluginPolicyP", "PluginPoolP", "PluginInfo", "PluginStickyP"]
+        "PluginPool", "PluginC10Spec", "PluginC10P", "PluginWitness", "PluginPolicyP", "PluginPoolP", "PluginInfo", "PluginStickyP",
+        "PluginStaleP"]
 
 RULE_COMMON = ("well-formed histories of plugin sections and environment operations: regression scenarios of the repaired "
                "defects, 'old versus new incarnation' races (kind x policy x requested ranges none/same/changed/multi x provider x "
@@ -98,6 +99,7 @@ def incarnation_scenarios(rng, ctx, per_config):
                         a_tail = [{"op": "event", "n": 0}, {"op": "resync", "ip": "@a0"}, {"op": "resync", "ip": "@a1"},
                                   {"op": "resync_item", "ip": "@a0"}, {"op": "resync_item", "ip": "@a1"},
                                   {"op": "api_release", "ip": "@a0", "key": "@ka0"}, {"op": "sync_pod", "ns": "ns1", "name": name},
+                                  {"op": "sync_pod", "ns": "ns1", "name": name, "stale": True},
                                   {"op": "event", "n": 0}]
                         rng.shuffle(a_tail)
                         b_ops = [put(B), inf(B), flt(B), bnd(B, rng.choice(["node1", "node2"])), inf(B), phase(B, 1), inf(B)]
@@ -121,7 +123,9 @@ def incarnation_scenarios(rng, ctx, per_config):
                             tail = [{"op": "event", "n": 0}, {"op": "resync", "ip": "@a0"}, {"op": "resync", "ip": "@a1"},
                                     {"op": "resync_item", "ip": "@a0"}, {"op": "resync_item", "ip": "@a1"}] + cont + [
                                     {"op": "resync", "ip": "@a2"}, {"op": "reload", "conf": conf_text([POOL_A, POOL_B])}, {"op": "restart"},
-                                    {"op": "resync", "ip": "@a0"}, {"op": "resync", "ip": "@a1"}, {"op": "sync_pod", "ns": "ns1", "name": name}]
+                                    {"op": "resync", "ip": "@a0"}, {"op": "resync", "ip": "@a1"}, {"op": "sync_pod", "ns": "ns1", "name": name},
+                                    {"op": "sync_pod", "ns": "ns1", "name": name, "stale": True}, {"op": "resync", "ip": "@a0"},
+                                    {"op": "resync", "ip": "@a1"}, {"op": "resync", "ip": "@a2"}]
                             hs.append(("incarnation:%s:p%d:%s:%s:%s" % (kind, policy, rmode, "cloud" if provider else "nocloud", end),
                                        {"provider": provider, "nodes": NODES, "conf": conf_text([POOL_A, POOL_B]),
                                         "ops": pre + a_ops + m + tail}))
@@ -158,6 +162,16 @@ def fixed_scenarios():
     hs.append(("F2-stale-lister-bind", {"provider": False, "nodes": NODES, "conf": conf_text([POOL_A]), "ops": base + [
         put(A2), inf(A2), flt(A2, ["node1"]), bnd(A2), dele(A2), put(B2), flt(B2, ["node1"]), bnd(B2), inf(B2), bnd(B2),
         {"op": "event", "n": 0}, bnd(B2), inf(B2), phase(B2, 1), {"op": "resync", "ip": "@a0"}]}))
+    # F16: the pod-IP sync reaches the pod name with the object of the EARLIER incarnation (listed before it was deleted)
+    A4, B4 = mkpod("web-0", "uA", ranges=[["10.100.0.3"]]), mkpod("web-0", "uB", ranges=[["10.100.0.5"]])
+    for policy in (0, 1):
+        A4, B4 = dict(A4, Policy=policy), dict(B4, Policy=policy)
+        hs.append(("F16-stale-pod-ip-sync-p%d" % policy, {"provider": policy == 1, "nodes": NODES, "conf": conf_text([POOL_A]), "ops": base + [
+            put(A4), inf(A4), flt(A4, ["node1"]), bnd(A4), inf(A4), phase(A4, 1), inf(A4), dele(A4), inf(A4), {"op": "event", "n": 0},
+            {"op": "sync_pod", "ns": "ns1", "name": "web-0", "stale": True}, {"op": "resync", "ip": "10.100.0.3"},
+            put(B4), inf(B4), flt(B4, ["node1"]), bnd(B4), inf(B4), phase(B4, 1), inf(B4),
+            {"op": "sync_pod", "ns": "ns1", "name": "web-0", "stale": True}, {"op": "resync", "ip": "10.100.0.3"},
+            {"op": "resync", "ip": "10.100.0.5"}, {"op": "sync_pod", "ns": "ns1", "name": "web-0"}]}))
     # the same with a resync pass before the informer has caught up (a Bind that went through on the API pod alone would
     # now lose its IP: the lister still shows the old incarnation)
     A3, B3 = mkpod("web-0", "uA"), mkpod("web-0", "uB")
